@@ -9,6 +9,7 @@ import (
 	"sort"
 	"strings"
 	"sync"
+	"time"
 
 	redact "github.com/cockroachdb/redact"
 	"github.com/cockroachdb/redact/internal/buffer"
@@ -164,6 +165,12 @@ var c12Calls = []c12Call{
 	}},
 	{"state-reading Formatter %5.2v", func() string { return string(redact.Sprintf("%5.2v|%v|%-+x", stateFmt{}, stateFmt{}, stateFmt{})) }},
 	{"state-reading Formatter plain", func() string { return string(redact.Sprintf("%v|%d", stateFmt{}, stateFmt{})) }},
+	{"SafeFormatter value", func() string { return string(redact.Sprintf("to %v|%s", safeFmtT{"k", "sec"}, &safeFmtT{"p", "q"})) }},
+	{"Unsafe(SafeFormatter value)", func() string { return string(redact.Sprintf("to %v", redact.Unsafe(safeFmtT{"k", "sec"}))) }},
+	{"SafeMessager value", func() string { return string(redact.Sprintf("%v|%s", safeMsgT{"sec"}, []interface{}{safeMsgT{"x"}})) }},
+	{"Unsafe(SafeMessager value)", func() string { return string(redact.Sprintf("%v", redact.Unsafe(safeMsgT{"sec"}))) }},
+	{"SafeValue and Stringer types", func() string { return string(redact.Sprintf("%v %v %v", safeT("pub"), strT{"s"}, time.Duration(1500)*time.Millisecond)) }},
+	{"Unsafe(SafeValue and Stringer types)", func() string { return string(redact.Sprintf("%v %v", redact.Unsafe(safeT("pub")), redact.Unsafe(strT{"s"}))) }},
 	{"hex/quote", func() string { return string(redact.Sprintf("%x % x %q %c", "hi", []byte("yo"), "q", 'c')) }},
 	{"Sprint spacing", func() string { return string(redact.Sprint(1, 2, "a", "b", 3.5, nil)) }},
 	{"Redactable operand", func() string { return string(redact.Sprintf("%v.", redact.RedactableString("r"+mStart+"x"+mEnd))) }},
@@ -470,6 +477,11 @@ type c12Stats struct {
 	Keys        []string          `json:"-"`
 }
 
+// noDedupeLevels: histories of up to noDedupeLevels+1 calls are explored without merging
+// on the pool state, so that cross-call state kept OUTSIDE the pool (a package-level
+// cache, a global flag) still shows; deeper levels merge on the dumped pool state.
+var noDedupeLevels = 1
+
 func historiesBFS(first []int, depth int, hook bool, deadline func() bool) c12Stats {
 	var st c12Stats
 	st.Exhaustive = true
@@ -528,9 +540,11 @@ func historiesBFS(first []int, depth int, hook bool, deadline func() bool) c12St
 							stack = append(stack, append(append([]int{}, choices[:i]...), alt))
 						}
 					}
-					if !seen[key] {
+					if !seen[key] || d < noDedupeLevels {
+						if !seen[key] {
+							st.States++
+						}
 						seen[key] = true
-						st.States++
 						next = append(next, node{full})
 						if st.Sample == "" && len(full) >= 2 {
 							st.Sample = describeHistory(full) + " -> pool: " + key
@@ -687,12 +701,16 @@ func c12Worker(args []string) int {
 		}
 		depth := 2
 		if tier == "thorough" {
-			depth = 3
+			depth = 4
+			noDedupeLevels = 2
 		}
 		st = historiesBFS(first, depth, mode == "hist+hook", deadline)
 	case "sched":
 		scen := c12Scenarios(tier)
 		budget := 2
+		if tier == "thorough" {
+			budget = 3
+		}
 		for b := 0; b <= budget; b++ {
 			ok := true
 			for i, sc := range scen {
@@ -858,7 +876,7 @@ func checkC12(c *Ctx) {
 	}
 	depth := 2
 	if !c.Quick() {
-		depth = 3
+		depth = 4
 	}
 	st, errs := runWorkers(c, "hist", nw, budget)
 	record("C12/histories", st, errs, map[string]interface{}{"calls": len(c12Calls), "history_depth": depth, "pool_bound": vsync.Cap, "pool_answers": "every Get: any pooled printer or a new one"})
